@@ -10,7 +10,10 @@
 //!    independently); malformed requests get an error/closed connection and the server keeps
 //!    answering a probe client; every connection of an interleaved schedule (`sched`) is answered
 //!    what its own bytes are answered alone (sig `conn-not-isolated`), with the schedule's
-//!    unterminated connections still open.
+//!    unterminated connections still open; a connection that has sent a complete request line is
+//!    answered or closed within 3 s whatever its neighbours do (sig `conn-unanswered`) — the
+//!    neighbours include connections that were opened FIRST and have sent nothing at all (`o<i>`,
+//!    `hold -`), on the TCP and on the HTTP listener (sig `http-server-wedged`).
 //!
 //! A case is one database: `begin`, `rec`…, `load`, then queries. Request lines are interpreted,
 //! so a case file can be replayed verbatim (`--replay`).
@@ -20,12 +23,20 @@ use cascette_protocol::{RibbitClient, TactClient};
 use cascette_ribbit::{AppState, BuildRecord, DatabaseError, ServerConfig, ServerError};
 use std::net::SocketAddr;
 use std::sync::Arc;
+use std::sync::atomic::{AtomicU32, Ordering};
 use std::time::Duration;
 use tokio::io::{AsyncReadExt, AsyncWriteExt};
 use tokio::net::TcpStream;
 use verif_harness::*;
 
 const SEQN_S: u64 = 1_700_000_000;
+/// oracle failures of the "server does not answer other clients" kind so far; every one costs
+/// several 3 s waits, so the generated run stops after a few (they are all reported)
+static WEDGES: AtomicU32 = AtomicU32::new(0);
+fn wedge(s: &mut Session, sig: &str, msg: &str, replay: &[String]) {
+    WEDGES.fetch_add(1, Ordering::Relaxed);
+    s.oracle_fail(sig, msg, replay);
+}
 const VREG: [&str; 7] = ["us", "eu", "cn", "kr", "tw", "sg", "xx"];
 const CREG: [&str; 5] = ["us", "eu", "kr", "tw", "cn"];
 
@@ -330,6 +341,18 @@ async fn probe_ok(ctx: &Ctx) -> Result<(), String> {
     }
 }
 
+/// the HTTP listener answers a fresh client (raw GET of a product it has) within 3 s
+async fn probe_http_ok(ctx: &Ctx) -> Result<(), String> {
+    let live = ctx.live.as_ref().ok_or("no server")?;
+    let Some(p) = ctx.recs.iter().map(|r| r.product.clone()).find(|p| addressable_http(p)) else { return Ok(()) };
+    match tokio::time::timeout(Duration::from_secs(3), raw_http(live.http, &format!("/{p}/cdns"))).await {
+        Ok(Ok((200, b))) if b.starts_with(b"Name!STRING:0") => Ok(()),
+        Ok(Ok((code, b))) => Err(format!("http probe got status {code}, {} bytes", b.len())),
+        Ok(Err(e)) => Err(e),
+        Err(_) => Err("http probe timed out".into()),
+    }
+}
+
 /// `reply:<len>:<first 16 bytes>` / `closed` — what is compared for a connection of a schedule
 /// (the reply text itself carries the wall clock and is tied by the `conn`/`cmd` lines)
 fn canon_reply(o: &[u8]) -> String {
@@ -342,6 +365,7 @@ struct SchedConn {
     got: Vec<u8>,
     result: Option<String>,
     saw_timeout: bool,
+    half_closed: bool,
 }
 
 impl SchedConn {
@@ -364,6 +388,16 @@ impl SchedConn {
         self.result = Some(r.clone());
         r
     }
+}
+
+/// the connections of a schedule that are open without a complete line, e.g. `#0:0 bytes sent`
+fn held_now(conns: &std::collections::BTreeMap<usize, SchedConn>) -> String {
+    let v: Vec<String> = conns
+        .iter()
+        .filter(|(_, c)| c.result.is_none() && !c.sent.contains(&10) && !c.half_closed)
+        .map(|(i, c)| format!("#{i}:{} bytes sent", c.sent.len()))
+        .collect();
+    v.join(", ")
 }
 
 fn case_replay(ctx: &Ctx, line: &str) -> Vec<String> {
@@ -563,14 +597,19 @@ async fn run_line(s: &mut Session, ctx: &mut Ctx, line: &str) {
                 s.oracle_fail("server-no-close", "connection neither answered nor closed within 8 s", &case_replay(ctx, &req));
             }
             if let Err(e) = probe_ok(ctx).await {
-                s.oracle_fail("server-wedged", &format!("after a request of {} bytes the probe client failed: {e}", b.len()), &case_replay(ctx, &req));
+                wedge(s, "server-wedged", &format!("after a request of {} bytes the probe client failed: {e}", b.len()), &case_replay(ctx, &req));
             }
             s.case(Some(&req));
         }
-        ["hold", b] => {
-            // a request line that is never terminated: keep the socket open, the server must go
-            // on answering others
-            let (Some(live), Some(b)) = (ctx.live.as_ref(), unhex(b)) else {
+        ["hold", b] | ["hold", b, _] => {
+            // `n` connections (default 8) that never terminate their request line — `-`: that
+            // never send a byte — opened on the TCP and on the HTTP listener BEFORE the probing
+            // clients connect and kept open: both servers must go on answering others
+            let n = match toks.get(2) {
+                None => Some(8usize),
+                Some(x) => x.parse::<usize>().ok(),
+            };
+            let (Some(live), Some(b), Some(n)) = (ctx.live.as_ref(), unhex(b), n) else {
                 s.line(line, "bad-op");
                 return;
             };
@@ -578,18 +617,32 @@ async fn run_line(s: &mut Session, ctx: &mut Ctx, line: &str) {
                 s.line(line, "bad-op");
                 return;
             }
+            let n = n.min(1024);
             let mut socks = vec![];
-            for _ in 0..8 {
-                if let Ok(mut k) = TcpStream::connect(live.tcp).await {
-                    let _ = k.write_all(&b).await;
-                    socks.push(k);
+            for addr in [live.tcp, live.http] {
+                for _ in 0..n {
+                    if let Ok(mut k) = TcpStream::connect(addr).await {
+                        if !b.is_empty() {
+                            let _ = k.write_all(&b).await;
+                            let _ = k.flush().await;
+                        }
+                        socks.push(k);
+                    }
                 }
             }
+            s.tally(if b.is_empty() { "hold:zero-bytes" } else { "hold:open-line" });
             let ok = probe_ok(ctx).await;
+            let okh = probe_http_ok(ctx).await;
             s.line(line, "pending");
+            let what = if b.is_empty() { "connections that have sent nothing at all".to_string() } else { format!("unterminated requests of {} bytes", b.len()) };
             if let Err(e) = ok {
-                s.oracle_fail("server-wedged", &format!("with 8 unterminated requests open the probe client failed: {e}"), &case_replay(ctx, line));
+                wedge(s, "server-wedged", &format!("with {n} {what} open (opened before it) the probe client failed: {e}"), &case_replay(ctx, line));
             }
+            if let Err(e) = okh {
+                wedge(s, "http-server-wedged", &format!("with {n} {what} open on the HTTP listener (opened before it) the HTTP probe client failed: {e}"), &case_replay(ctx, line));
+            }
+            // the held sockets were open during the probes (none was closed by the server for
+            // being silent: that takes the 10 s read timeout)
             drop(socks);
             s.case(Some(line));
         }
@@ -630,13 +683,15 @@ async fn run_line(s: &mut Session, ctx: &mut Ctx, line: &str) {
                 s.oracle_fail("storm-inconsistent", &format!("concurrent identical requests were answered differently: {resp:?}"), &case_replay(ctx, line));
             }
             if let Err(e) = probe_ok(ctx).await {
-                s.oracle_fail("server-wedged", &format!("after a storm the probe client failed: {e}"), &case_replay(ctx, line));
+                wedge(s, "server-wedged", &format!("after a storm the probe client failed: {e}"), &case_replay(ctx, line));
             }
             s.case(Some(line));
         }
         ["sched", evs] => {
             // an interleaving of socket events over several connections (the model: srvRun);
-            // `r<i>` reads connection i until the server closes it (3 s → `pending`)
+            // `o<i>` opens connection i and sends nothing (every other event on a connection not
+            // seen before opens it first); `r<i>` reads connection i until the server closes it
+            // (3 s → `pending`)
             let Some(live) = ctx.live.as_ref() else {
                 s.line(line, "bad-op");
                 return;
@@ -646,6 +701,10 @@ async fn run_line(s: &mut Session, ctx: &mut Ctx, line: &str) {
             let mut results: Vec<String> = vec![];
             let mut bad = false;
             let mut timed = false;
+            let mut unanswered: Vec<(usize, usize, String)> = vec![];
+            if evs.starts_with('o') {
+                s.tally("sched:silent-connection-opened-first");
+            }
             for tok in evs.split(',') {
                 if tok == "T" {
                     // longer than the server's 10 s read timeout
@@ -667,7 +726,7 @@ async fn run_line(s: &mut Session, ctx: &mut Ctx, line: &str) {
                 };
                 let ok_shape = match kind {
                     "d" => payload.and_then(unhex).is_some(),
-                    "e" | "r" => payload.is_none(),
+                    "e" | "r" | "o" => payload.is_none(),
                     _ => false,
                 };
                 if !ok_shape {
@@ -676,7 +735,7 @@ async fn run_line(s: &mut Session, ctx: &mut Ctx, line: &str) {
                 }
                 if !conns.contains_key(&i) {
                     let sock = TcpStream::connect(addr).await.ok();
-                    conns.insert(i, SchedConn { sock, sent: vec![], got: vec![], result: None, saw_timeout: false });
+                    conns.insert(i, SchedConn { sock, sent: vec![], got: vec![], result: None, saw_timeout: false, half_closed: false });
                 }
                 let c = conns.get_mut(&i).expect("inserted");
                 match kind {
@@ -694,8 +753,17 @@ async fn run_line(s: &mut Session, ctx: &mut Ctx, line: &str) {
                         if let Some(k) = c.sock.as_mut() {
                             let _ = k.shutdown().await;
                         }
+                        c.half_closed = true;
                     }
-                    _ => results.push(c.read_to_end().await),
+                    "o" => {} // connected above; stays silent
+                    _ => {
+                        let r = c.read_to_end().await;
+                        let (complete, n) = (c.sent.contains(&10) || c.half_closed, c.sent.len());
+                        if r == "pending" && complete {
+                            unanswered.push((i, n, held_now(&conns)));
+                        }
+                        results.push(r);
+                    }
                 }
             }
             if bad {
@@ -704,9 +772,25 @@ async fn run_line(s: &mut Session, ctx: &mut Ctx, line: &str) {
             }
             let resp = if results.is_empty() { "-".to_string() } else { results.join(",") };
             s.line(line, &resp);
+            // who is holding a connection open without a complete line (for the messages)
+            let held = held_now(&conns);
+            let zero_held = conns.values().any(|c| c.result.is_none() && c.sent.is_empty() && !c.half_closed);
+            if zero_held {
+                s.tally("sched:zero-byte-neighbour-open-at-end");
+            }
+            // O: a complete request line (or a half-closed one) is answered or closed, whatever
+            // the neighbours do
+            for (i, n, held_then) in &unanswered {
+                wedge(
+                    s,
+                    "conn-unanswered",
+                    &format!("connection {i} of the schedule sent its request ({n} bytes, line complete or half-closed) and was neither answered nor closed within 3 s; open at that moment without a line end: [{held_then}]"),
+                    &case_replay(ctx, line),
+                );
+            }
             // O: the server goes on answering while the unterminated connections are still open
             if let Err(e) = probe_ok(ctx).await {
-                s.oracle_fail("server-wedged", &format!("with the schedule's connections open the probe client failed: {e}"), &case_replay(ctx, line));
+                wedge(s, "server-wedged", &format!("with the schedule's connections open (held without a line end: [{held}]) the probe client failed: {e}"), &case_replay(ctx, line));
             }
             // O (isolation): every answered connection got what its own bytes get alone
             for (i, c) in &conns {
@@ -1098,8 +1182,10 @@ fn gen_sched(rng: &mut Rng, products: &[String], pending_read: bool, with_timeou
                 sc.push(format!("e{i}"));
                 sc.push(format!("r{i}"));
             }
-            // nothing at all, then a half-close
+            // nothing at all (accepted, silent while the merge puts others in between), then a
+            // half-close
             3 => {
+                sc.push(format!("o{i}"));
                 sc.push(format!("e{i}"));
                 sc.push(format!("r{i}"));
             }
@@ -1135,10 +1221,108 @@ fn gen_sched(rng: &mut Rng, products: &[String], pending_read: bool, with_timeou
         // connection opened after it is served
         let h = scripts.len();
         out.insert(0, format!("d{h}:{}", hex(b"v1/products/wow/versions")));
+        // and one that never sends a byte: closed by the timeout, no reply
+        out.insert(0, format!("o{}", h + 2));
         out.push("T".into());
         out.push(format!("r{h}"));
+        out.push(format!("r{}", h + 2));
         out.push(format!("d{}:{}", h + 1, hex(b"v1/summary\r\n")));
         out.push(format!("r{}", h + 1));
+    }
+    format!("sched {}", out.join(","))
+}
+
+/// what a connection can hold without ever ending its line — the boundary family around "has
+/// sent nothing yet": zero bytes, the first 1, 2, 3, 4 bytes of a request, all but its last byte,
+/// the whole line without its end, and first bytes of other protocols / blanks / non-UTF-8.
+fn held_family(line: &[u8]) -> Vec<Vec<u8>> {
+    let mut v: Vec<Vec<u8>> = vec![];
+    for n in [1usize, 2, 3, 4, line.len().saturating_sub(1), line.len()] {
+        v.push(line[..n.min(line.len())].to_vec());
+    }
+    for f in [&b"\r"[..], b" ", b"\x16", b"\x16\x03\x01", b"GET", b"GET / HTTP/1.1\r", b"\xff", b"\x00", b"PO"] {
+        v.push(f.to_vec());
+    }
+    v
+}
+
+/// a schedule whose FIRST events open the held connections — `v` even: connection 0 has sent
+/// nothing at all (`o0`), `v` odd: member `v/2` of `held_family` — and only then lets the probing
+/// clients connect, send complete requests and read their answers; at the end connection 0
+/// completes its own line and must be answered too (or half-closes, or just stays open).
+fn gen_sched_held_first(rng: &mut Rng, products: &[String], v: usize) -> String {
+    let good: Vec<String> = products.iter().filter(|p| addressable_tcp(p)).cloned().collect();
+    let request = |rng: &mut Rng| -> Vec<u8> {
+        if good.is_empty() || rng.chance(1, 6) {
+            return b"v1/summary".to_vec();
+        }
+        let p = rng.pick(&good).clone();
+        format!("{}/products/{p}/{}", *rng.pick(&["v1", "v2"]), *rng.pick(&["versions", "cdns", "bgdl"])).into_bytes()
+    };
+    let own = request(rng);
+    let fam = held_family(&own);
+    let mut out: Vec<String> = vec![];
+    let mut held: Vec<Vec<u8>> = vec![if v % 2 == 0 { vec![] } else { fam[(v / 2) % fam.len()].clone() }];
+    // up to two more held neighbours, any member of the family or silent
+    for _ in 0..rng.below(3) {
+        held.push(if rng.chance(1, 2) { vec![] } else { rng.pick(&fam).clone() });
+    }
+    for (i, h) in held.iter().enumerate() {
+        out.push(if h.is_empty() { format!("o{i}") } else { format!("d{i}:{}", hex(h)) });
+    }
+    // the probing clients: complete lines, each read to its end; merged in a random order
+    let np = rng.range(2, 3) as usize;
+    let mut scripts: Vec<Vec<String>> = vec![];
+    for k in 0..np {
+        let i = held.len() + k;
+        let mut b = if k + 1 == np && rng.chance(1, 2) {
+            (*rng.pick(&[&b"v1/products/nosuch/versions"[..], b"v3/x", b"", b"\xff\xfe", b"GET / HTTP/1.1"])).to_vec()
+        } else {
+            request(rng)
+        };
+        b.extend_from_slice(*rng.pick(&[&b"\r\n"[..], b"\n"]));
+        let mut sc = vec![];
+        if rng.chance(1, 3) {
+            sc.push(format!("o{i}")); // connects, is silent for a while itself, then asks
+        }
+        let cut = rng.below(b.len() as u64) as usize;
+        if cut > 0 && rng.chance(1, 2) {
+            sc.push(format!("d{i}:{}", hex(&b[..cut])));
+            sc.push(format!("d{i}:{}", hex(&b[cut..])));
+        } else {
+            sc.push(format!("d{i}:{}", hex(&b)));
+        }
+        if rng.chance(1, 3) {
+            sc.push(format!("e{i}"));
+        }
+        sc.push(format!("r{i}"));
+        scripts.push(sc);
+    }
+    let mut pos = vec![0usize; scripts.len()];
+    loop {
+        let live: Vec<usize> = (0..scripts.len()).filter(|&k| pos[k] < scripts[k].len()).collect();
+        if live.is_empty() {
+            break;
+        }
+        let k = *rng.pick(&live);
+        out.push(scripts[k][pos[k]].clone());
+        pos[k] += 1;
+    }
+    // connection 0 afterwards
+    match rng.below(4) {
+        // the rest of its own line (for a prefix of it) / a whole line (otherwise), then the end
+        0 | 1 => {
+            let rest: Vec<u8> = if own.starts_with(&held[0]) { own[held[0].len()..].to_vec() } else { own.clone() };
+            let mut rest = rest;
+            rest.extend_from_slice(b"\r\n");
+            out.push(format!("d0:{}", hex(&rest)));
+            out.push("r0".into());
+        }
+        2 => {
+            out.push("e0".into());
+            out.push("r0".into());
+        }
+        _ => {}
     }
     format!("sched {}", out.join(","))
 }
@@ -1248,6 +1432,25 @@ fn gen_case(rng: &mut Rng, idx: usize, thorough: bool, seed: u64) -> Vec<String>
             }
         }
     }
+    // again a stream of its own: connections that are opened FIRST and hold nothing / a prefix of
+    // a line while the clients that connect after them are served. Every database gets one such
+    // schedule; the database index walks the family (even: zero bytes), so the quick tier's 36
+    // databases cover every member whatever the seed.
+    let rng = &mut Rng::new(seed.wrapping_mul(0xd6e8_feb8_6659_fd93) ^ (idx as u64 + 0x51e7));
+    lines.push(gen_sched_held_first(rng, &products, idx));
+    match idx % 4 {
+        // silent connections (zero bytes) on both listeners, few and many
+        1 => {
+            lines.push("hold -".into());
+            lines.push(format!("hold - {}", *rng.pick(&[1usize, 2, 33, 100, 200])));
+        }
+        // many open lines
+        3 => {
+            let fam = held_family(b"v1/summary");
+            lines.push(format!("hold {} {}", hex(rng.pick(&fam[..]).as_slice()), *rng.pick(&[1usize, 16, 65, 150])));
+        }
+        _ => {}
+    }
     lines
 }
 
@@ -1306,6 +1509,11 @@ fn main() {
         let mut rng = Rng::new(args.seed);
         let ndb = if args.thorough() { 400 } else { 36 };
         for i in 0..ndb {
+            if WEDGES.load(Ordering::Relaxed) >= 4 {
+                // every further one costs several 3 s waits; the ones found are all reported
+                s.tally("stopped-early:server-does-not-answer");
+                break;
+            }
             let lines = gen_case(&mut rng, i, args.thorough(), args.seed);
             run_case(&mut s, &lines).await;
         }
